@@ -107,12 +107,12 @@ Proof.
   assert (Hfirst : firstn (length (hdr_prefix usz csz isnil)) (hdr usz csz isnil ++ rest) = hdr_prefix usz csz isnil).
   { unfold hdr. cbv zeta. rewrite <- app_assoc. rewrite firstn_app, firstn_all, Nat.sub_diag. cbn [firstn]. apply app_nil_r. }
   unfold parse_hdr.
-  rewrite Hl at 1. rewrite uv_roundtrip by (vm_compute; reflexivity).
+  rewrite Hl at 1. rewrite uv_dec_min_roundtrip by (vm_compute; reflexivity).
   rewrite N.eqb_refl. cbn [negb].
-  rewrite uv_roundtrip by exact Hu. rewrite uv_roundtrip by exact Hc.
+  rewrite uv_dec_min_roundtrip by exact Hu. rewrite uv_dec_min_roundtrip by exact Hc.
   replace (length (hdr usz csz isnil ++ rest) - length (uv_enc k ++ rest))%nat
     with (length (hdr_prefix usz csz isnil)) by lia.
-  rewrite Hfirst. fold k. rewrite uv_roundtrip by exact Hcrc64.
+  rewrite Hfirst. fold k. rewrite uv_dec_min_roundtrip by exact Hcrc64.
   rewrite N.eqb_refl. rewrite app_length.
   replace (length (hdr usz csz isnil) + length rest - length rest)%nat with (length (hdr usz csz isnil)) by lia.
   destruct isnil; reflexivity.
@@ -256,6 +256,12 @@ Proof.
   apply uv_dec_go_cont; assumption.
 Qed.
 
+Lemma uv_dec_min_pprefix x t : pprefix t (uv_enc x) -> exists e, eofish e /\ uv_dec_min t = Err e.
+Proof.
+  intro H. destruct (uv_dec_pprefix x t H) as (e & He & Hd). exists e. split; [exact He|].
+  apply uv_dec_min_err. exact Hd.
+Qed.
+
 Theorem parse_hdr_cut usz csz isnil t :
   usz < 2 ^ 64 -> csz < 2 ^ 64 -> pprefix t (hdr usz csz isnil) ->
   exists e, eofish e /\ parse_hdr t = Err e.
@@ -264,23 +270,23 @@ Proof.
   unfold hdr in H. cbv zeta in H. set (k := crc32c (hdr_prefix usz csz isnil)) in H.
   unfold hdr_prefix in H. rewrite <- !app_assoc in H.
   apply pprefix_app in H. destruct H as [H | (t1 & -> & H)].
-  { destruct (uv_dec_pprefix _ _ H) as (e & He & Hd). exists e. split; [exact He|].
+  { destruct (uv_dec_min_pprefix _ _ H) as (e & He & Hd). exists e. split; [exact He|].
     unfold parse_hdr. rewrite Hd. reflexivity. }
-  unfold parse_hdr. rewrite uv_roundtrip by (vm_compute; reflexivity).
+  unfold parse_hdr. rewrite uv_dec_min_roundtrip by (vm_compute; reflexivity).
   rewrite N.eqb_refl. cbn [negb].
   apply pprefix_app in H. destruct H as [H | (t2 & -> & H)].
   { destruct t1 as [|b t1]; [exists EOF; split; [left|]; reflexivity|].
     exfalso. apply pprefix_length in H. cbn [length] in H. lia. }
   cbn [app].
   apply pprefix_app in H. destruct H as [H | (t3 & -> & H)].
-  { destruct (uv_dec_pprefix _ _ H) as (e & He & Hd). exists e. split; [exact He|].
+  { destruct (uv_dec_min_pprefix _ _ H) as (e & He & Hd). exists e. split; [exact He|].
     rewrite Hd. reflexivity. }
-  rewrite uv_roundtrip by exact Hu.
+  rewrite uv_dec_min_roundtrip by exact Hu.
   apply pprefix_app in H. destruct H as [H | (t4 & -> & H)].
-  { destruct (uv_dec_pprefix _ _ H) as (e & He & Hd). exists e. split; [exact He|].
+  { destruct (uv_dec_min_pprefix _ _ H) as (e & He & Hd). exists e. split; [exact He|].
     rewrite Hd. reflexivity. }
-  rewrite uv_roundtrip by exact Hc.
-  destruct (uv_dec_pprefix _ _ H) as (e & He & Hd). exists e. split; [exact He|].
+  rewrite uv_dec_min_roundtrip by exact Hc.
+  destruct (uv_dec_min_pprefix _ _ H) as (e & He & Hd). exists e. split; [exact He|].
   cbv zeta. rewrite Hd. reflexivity.
 Qed.
 
